@@ -82,7 +82,8 @@ func (f *FieldUpdater) Merge(dst, src proto.Message) {
 		return
 	}
 
-	nestedMask := fmutils.NestedMaskFromPaths(mask.GetPaths())
+	// normalised: a path that is also covered by one of its parents must not narrow that parent
+	nestedMask := fmutils.NestedMaskFromPaths(fieldmaskpb.Union(mask, nil).GetPaths())
 	nestedMask.Filter(src)
 	proto.Merge(dst, src)
 
